@@ -89,6 +89,53 @@ Fixpoint json_equiv (a b : json) {struct a} : bool :=
   | _, _ => false
   end.
 
+(* equality modulo the order of object members and, for the arrays that come from
+   frozenset fields (Album/Track.artists, Track.composers/performers), modulo the order of
+   the elements: a Python set has no observable order *)
+Definition set_member (k : str) (o : list (str * json)) : bool :=
+  str_eqb k (lit "composers") || str_eqb k (lit "performers")
+  || (str_eqb k (lit "artists") && negb (has_key (lit "albums") o) && negb (has_key (lit "tracks") o)).
+
+Fixpoint json_equiv_sets (a b : json) {struct a} : bool :=
+  match a, b with
+  | JNull, JNull => true
+  | JBool x, JBool y => Bool.eqb x y
+  | JInt x, JInt y => x =? y
+  | JFloat x, JFloat y => str_eqb x y
+  | JStr x, JStr y => str_eqb x y
+  | JArr x, JArr y =>
+      (fix go (x y : list json) {struct x} : bool :=
+         match x, y with
+         | [], [] => true
+         | a' :: x', b' :: y' => json_equiv_sets a' b' && go x' y'
+         | _, _ => false
+         end) x y
+  | JObj x, JObj y =>
+      (Nat.eqb (List.length x) (List.length y)) &&
+      (fix go (x0 : list (str * json)) {struct x0} : bool :=
+         match x0 with
+         | [] => true
+         | (k, a') :: x' =>
+             match lookup k y with
+             | Some b' =>
+                 (if set_member k x
+                  then match a', b' with
+                       | JArr ea, JArr eb =>
+                           Nat.eqb (List.length ea) (List.length eb) &&
+                           (fix all (ea0 : list json) {struct ea0} : bool :=
+                              match ea0 with
+                              | [] => true
+                              | e :: ea' => existsb (fun e' => json_equiv_sets e e') eb && all ea'
+                              end) ea
+                       | _, _ => json_equiv_sets a' b'
+                       end
+                  else json_equiv_sets a' b') && go x'
+             | None => false
+             end
+         end) x
+  | _, _ => false
+  end.
+
 Definition is_null (j : json) : bool := match j with JNull => true | _ => false end.
 
 (* Induction principle that reaches inside arrays and objects. *)
